@@ -10,6 +10,7 @@ pub mod sch;
 pub mod c10b;
 pub mod c12b;
 pub mod c15;
+pub mod c15b;
 pub mod c17b;
 pub mod c20;
 
